@@ -1,4 +1,5 @@
 import OmbottModel.Model.Chunked
+import OmbottModel.Py.IntLim
 /-
 `_body_read` and the request level of `ombott/request_pkg/body_mixin.py` on top of
 `Model/Body.lean` (Content-Length framing, accumulator) and `Model/Chunked.lean`:
@@ -44,12 +45,13 @@ def errStatus : Err → Nat
   | .http st => st
   | _ => 500
 
-/-- `int(environ.get('CONTENT_LENGTH') or -1)` -/
+/-- `int(environ.get('CONTENT_LENGTH') or -1)`; `int` as the interpreter does it (`pyIntLim`): a
+numeral of more than `Gen.intMaxStrDigits` digits is a `ValueError` like a non-numeric text -/
 def contentLength (h : Option Str) : Except Err Int :=
   match h with
   | none => .ok (-1)
   | some s => if s.isEmpty then .ok (-1) else
-    match pyInt s with
+    match pyIntLim s with
     | some n => .ok n
     | none => .error .valueError
 
